@@ -2,7 +2,7 @@
 import os, random
 from vlib import runner
 from vlib.core import Result
-from . import progcommon as pc
+from . import progcommon as pc, diffcommon as dc
 from gen import dl, progen, refeval
 
 RULE = ("case = one generated program (typed, stratified, terminating by construction: facts inline and in files, positive/"
@@ -15,7 +15,7 @@ RULE = ("case = one generated program (typed, stratified, terminating by constru
 SOUFFLE = {}
 
 
-def cfg_for(rng):
+def cfg_fn(rng):
     cfg = {}
     if rng.random() < 0.25:
         cfg["sinks_only"] = True      # only sinks are output, so intermediate relations can be expired
@@ -31,10 +31,22 @@ def cfg_for(rng):
     return cfg
 
 
+def wrong_key(prog, diffs):
+    """'wrong-result|<shape tags>'; the aggr-inject-rec tag (a recorded finding) is kept only if every differing relation
+    depends on a clause of that shape, so that it cannot hide a wrong result elsewhere in the same program"""
+    tags = set(dc.shape_tags(prog))
+    if "aggr-inject-rec" in tags:
+        tainted = dc.downstream_of_inject_rec(prog)
+        if not all(d.split(":")[0] in tainted for d in diffs):
+            tags.discard("aggr-inject-rec")
+    tags &= {"aggr-inject-rec"}           # the only tag a C01 finding refers to
+    return "wrong-result" + ("|" + ",".join(sorted(tags)) if tags else "")
+
+
 def worker(arg):
     seed, souffle = arg
     rng = random.Random(seed)
-    prog = progen.generate(seed, cfg_for(rng))
+    prog = progen.generate(seed, cfg_fn(rng))
     text = dl.fmt_program(prog)
     rec = dict(seed=seed, hash=runner.prog_hash(text), features=sorted(prog.features), counts={})
     try:
@@ -66,7 +78,7 @@ def worker(arg):
             viols.append(("output:" + p.split(" ")[0], p + "\n" + text))
         diffs = runner.diff_outputs(prog, outs, db, ("souffle", "model"))
         if diffs:
-            viols.append(("wrong-result", "interpreter output differs from the stratified least model:\n  " + "\n  ".join(diffs) + "\n" + text))
+            viols.append((wrong_key(prog, diffs), "interpreter output differs from the stratified least model:\n  " + "\n  ".join(diffs) + "\n" + text))
     empties = sum(1 for r in prog.rels if r.name.startswith("r") and not db[r.name])
     rec["counts"]["derived_relations_empty"] = empties
     rec["counts"]["derived_tuples"] = sum(len(db[r.name]) for r in prog.rels if not r.name.startswith("e"))
@@ -94,3 +106,26 @@ def check(tier, seed):
     res.assumptions = ["the reference evaluator's value semantics (written from the documentation) are right",
                        "programs are samples from the generator's distribution; constructs it does not emit are not covered"]
     return res
+
+
+def reduce_outcome(p, souffle, D):
+    """tools/reduce.py: violation key of program p (None = agrees with the model)"""
+    try:
+        db, ev = pc.reference(p)
+    except Exception:
+        return None
+    t = dl.fmt_program(p)
+    runner.write_case(D, p, text=t)
+    run = runner.run_souffle(souffle, D, timeout=60)
+    ck = runner.crash_key(run)
+    if ck is not None:
+        return "crash:" + ck
+    if run.rc != 0:
+        return None
+    outs, pr = runner.read_outputs(D, p)
+    if pr:
+        return "output"
+    dd = runner.diff_outputs(p, outs, db)
+    if dd:
+        return wrong_key(p, dd)
+    return None
